@@ -206,7 +206,18 @@ static void run_case(int n, char **lines) {
     char *l = lines[i];
     ev_e0 = fl_cfg_e; ev_w0 = fl_cfg_w;
     vout("EV %d", i);
-    if (!strncmp(l, "BOOT", 4)) {
+    if (!strncmp(l, "MBOOT ", 6)) {
+      /* boot decision of the MQTT-capable build: a second binary (harness/drv/c12_boot.c = real user_main.c with the MQTT flags);
+         it replaces this child process and prints CFGMODE / START / BOOTEND */
+      static char buf[512]; char *av[16]; int ac = 0; const char *exe = getenv("C12_BOOT_EXE");
+      snprintf(buf, sizeof buf, "%s", l + 6);
+      av[ac++] = (char *)(exe ? exe : "c12_boot");
+      for (char *t = strtok(buf, " "); t && ac < 14; t = strtok(NULL, " ")) { if (t[0] == ':') break; av[ac++] = t; }
+      av[ac] = NULL;
+      fflush(stdout);
+      if (exe) execv(exe, av);
+      vout("UNKNOWN-EVENT"); _exit(3);
+    } else if (!strncmp(l, "BOOT", 4)) {
       c12_cfg(l);
       c12_boot();
     } else if (!strncmp(l, "NOTIFY ", 7)) {
